@@ -355,9 +355,26 @@ func (f *Frame) contractCall(st *State, r *Term, target *ssa.Function, tmap TMap
 	sig := target.Signature
 	var rs []SVal
 	var out TupleVal
+	var pureVals TupleVal
+	if ct.Pure {
+		// the results of a pure function are the values of its (uninterpreted) result functions, so
+		// that they coincide with call(...) terms in specifications
+		if pv, ok := f.pureCall(pre, r, target, tmap, ct, args, pos); ok {
+			if tv, isT := pv.(TupleVal); isT {
+				pureVals = tv
+			} else {
+				pureVals = TupleVal{pv}
+			}
+		}
+	}
 	for i := 0; i < sig.Results().Len(); i++ {
 		t := cf.subst(sig.Results().At(i).Type())
-		v := ctx.fresh("res!"+shortKey(ct.Key), cf.sortOf(t))
+		var v *Term
+		if len(pureVals) == sig.Results().Len() {
+			v = f.asTerm(pureVals[i])
+		} else {
+			v = ctx.fresh("res!"+shortKey(ct.Key), cf.sortOf(t))
+		}
 		f.assumeWf(st, v, t)
 		rs = append(rs, SVal{v, t})
 		out = append(out, v)
